@@ -178,6 +178,15 @@ pub fn source_constants() -> &'static Vec<u32> {
                 }
             }
         }
+        // plane aliases: every BMP constant again in planes 1, 2 and 16 (same low 16 bits).  A comparison done on a
+        // value truncated to 16 bits treats U+1F780 like U+F780 (seeded defect C12_6, caught by random streams with
+        // some seeds only before this was added).
+        let bmp: Vec<u32> = v.iter().copied().filter(|&x| (0x80..=0xFFFF).contains(&x)).collect();
+        for x in bmp {
+            for plane in [0x1_0000u32, 0x2_0000, 0x10_0000] {
+                v.push(x + plane);
+            }
+        }
         v
     })
 }
